@@ -289,6 +289,15 @@ class Eval:
                     Q.actions.append(("SUBST_L",))
                     out.append((Q, Poly.atom("m")))
             return ("multi", out)
+        if name in ("len", "size_hint") and getattr(getattr(s, "top", s), "div_strict", False):
+            # size_hint written in terms of the type's own len() override (or the reverse): follow it
+            cb0 = Eval.BODIES.get(fn.get("resolved") or "")
+            if cb0 is not None and cb0.get("blocks") and cb0.get("id") != s.b.get("id") and getattr(s, "_len_depth", 0) < 2:
+                s._len_depth = getattr(s, "_len_depth", 0) + 1
+                try:
+                    return ("multi", s.inline(P, cb0, args))
+                finally:
+                    s._len_depth -= 1
         if fn.get("trait") in ("core::iter::Iterator", "core::iter::DoubleEndedIterator", "core::iter::ExactSizeIterator") or \
            (fn.get("trait") or "").endswith("Iterator"):
             # call on self: record as action with the current cursor state
@@ -341,6 +350,21 @@ class Eval:
             ret = P.env.get(0)
             s.results.append((P.conds, P.actions, ret, P.mem["self"][0] if isinstance(P.mem["self"][0], Slice) else P.mem["self"][0]))
             return
+        if k == "assert" and t.get("kind") == "DivisionByZero" and getattr(s, "div_strict", False):
+            # size_hint / len under the cursor invariant: a divisor that the case's facts do not make non-zero can be zero
+            # (an empty array has cols = 0 and skip_cols = 0): the call panics where the ideal cursor reports 0 items
+            c0 = s.operand(P, t["cond"])
+            if isinstance(c0, Cond):
+                nz = decide(P.conds, c0.neg() if t.get("expected") is False else c0)
+                if nz is not True:
+                    nz = decide(saturate(P.conds), c0.neg() if t.get("expected") is False else c0)
+                dv = c0.poly
+                if nz is not True and isinstance(dv, Poly) and dv.t.get((), 0) > 0 and all(v >= 0 for v in dv.t.values()):
+                    nz = True      # every atom is a usize: a positive constant plus non-negative terms is not zero
+                if nz is not True:
+                    s.results.append((P.conds, P.actions, Poly.atom("PANIC:division by zero"), None))
+                    return
+            return s.step(P, t["target"], depth + 1)
         if k == "assert": return s.step(P, t["target"], depth + 1)    # language overflow asserts: success edge
         if k == "drop": return s.step(P, t["target"], depth + 1)
         if k == "call":
@@ -825,8 +849,8 @@ def size_hint_schema(W, Kv, rows):
     return n
 
 
-def size_hint_semantic(b, desc, W, names):
-    """size_hint decided semantically: substitute the cursor invariant for the slice length and require the result
+def size_hint_semantic(b, desc, W, names, kind="size_hint"):
+    """size_hint (kind="size_hint") / ExactSizeIterator::len (kind="len") decided semantically: substitute the cursor invariant for the slice length and require the result
     to be the number of remaining items in every case.  Cases: empty (L = 0); non-empty with gap K = 0
     (L = m*W); non-empty with K > 0 (L = (m-1)*(W+K) + W); rows additionally W = 0 (then m = 0, L = 0)."""
     Mm = Poly.atom("m")
@@ -851,12 +875,13 @@ def size_hint_semantic(b, desc, W, names):
             else:
                 d2.append(x)
         ev = Eval(b.d, d2)
+        ev.div_strict = True
         ev.initial_conds = list(conds)
         res = ev.run()
         for pc, actions, ret, final in res:
             npaths += 1
             got = repr(ret)
-            expr = "(%r, Some(%r))" % (want, want)
+            expr = ("(%r, Some(%r))" % (want, want)) if kind == "size_hint" else repr(want)
             if got != expr:
                 bad.append((name, pc, got, expr))
     return bad, npaths
@@ -873,6 +898,165 @@ def cursor_layout(f, typ):
                 raise AnchorMissing("fields of %s are %s (expected v/cols/skip_cols or v/skip)" % (typ, names))
             return [m[n] for n in names], (C if "cols" in names else ONE), names
     raise AnchorMissing("cursor type " + typ)
+
+
+# ---- overrides of provided iterator methods that have no schema of their own (R-CURSOR, clause "override") -------------------
+FRONT_NAMES = {"next", "nth", "fold", "try_fold", "for_each", "try_for_each", "find", "find_map", "position", "all", "any", "advance_by",
+               "count", "sum", "product", "min", "max", "min_by", "max_by", "min_by_key", "max_by_key", "reduce", "collect", "partition"}
+BACK_NAMES = {"next_back", "nth_back", "rfold", "try_rfold", "rfind", "rposition", "advance_back_by", "last"}
+FLIP_NAMES = {"rev"}
+NEUTRAL_NAMES = {"len", "size_hint", "is_empty", "by_ref", "into_iter", "num_cols"}
+ALIGNED_FROM_END = {"rchunks", "rchunks_mut", "rchunks_exact", "rchunks_exact_mut"}
+DROPS_SHORT_TAIL = {"chunks_exact", "chunks_exact_mut", "windows", "array_chunks", "as_chunks"}
+CHUNKERS = {"chunks", "chunks_mut"}
+
+
+def _self_aliases(b):
+    """locals that hold the receiver (by value, by copy, or as a reference to it)"""
+    A = {1}
+    ch = True
+    while ch:
+        ch = False
+        for bi, si, st in b.stmts():
+            if st["k"] != "assign" or st["p"]["proj"]:
+                continue
+            rv = st["rv"]
+            src = None
+            if rv["k"] == "use" and rv["o"]["k"] in ("copy", "move"):
+                src = rv["o"]["p"]
+            elif rv["k"] in ("ref", "rawptr"):
+                src = rv["p"]
+            if src is not None and src["local"] in A and all(pe["k"] == "deref" for pe in src["proj"]) and st["p"]["local"] not in A:
+                A.add(st["p"]["local"]); ch = True
+    return A
+
+
+def _places(x):
+    """every place mentioned in a statement / terminator (recursive walk over the JSON)"""
+    if isinstance(x, dict):
+        if "local" in x and "proj" in x:
+            yield x
+        for v in x.values():
+            yield from _places(v)
+    elif isinstance(x, list):
+        for v in x:
+            yield from _places(v)
+
+
+def override_clause(f, b, typ, R):
+    """An override of a provided Iterator / DoubleEndedIterator method that has no schema.  Decided structurally:
+    (a) a *delegating* override touches the cursor only through the cursor's own judged methods (next, next_back, nth, nth_back,
+        len, size_hint, count, last) or through std's provided methods on the cursor: then it is a composition of ideal steps, and
+        the clause is direction: a front-family method (fold, for_each, count, min ..) never steps from the back and vice versa;
+    (b) a *direct* override reads the cursor's fields itself: the recognised strided-iteration idioms are checked
+        (`chunks(cols + skip_cols)`: right stride; `rchunks*` align rows from the wrong end, `chunks_exact*` / `windows` lose the
+        final row, which carries no gap), anything else is listed as undecided."""
+    from .dfx import Dfx, walk, show, strip
+    m = b.name
+    fam = "back" if b.trait_head == "DoubleEndedIterator" else "front"
+    A = _self_aliases(b)
+    bodies = [b] + b.closures()
+    direct = False
+    for bi, bl in enumerate(b.blocks):
+        for pl in _places([bl["stmts"], bl["term"]]):
+            if pl["local"] in A and any(pe["k"] == "field" for pe in pl["proj"]):
+                direct = True
+    used = []
+    helper = None
+    for bi, t, fn in b.calls():
+        if not fn:
+            continue
+        takes_self = any(a.get("k") in ("copy", "move") and a["p"]["local"] in A and all(pe["k"] == "deref" for pe in a["p"]["proj"]) for a in t["args"])
+        if not takes_self:
+            continue
+        cb = f.crate_fn_for_call(fn)
+        if cb is not None and not (cb.self_head == typ and cb.name in ANCHORED + ("len",)):
+            helper = cb.ident
+        used.append(fn["name"])
+    what = "override of the provided method %s" % m
+    if helper:
+        R.inconc(b.ident, "%s hands the cursor to the crate function %s: no schema for this override (undecided)" % (what, helper))
+        return
+    if not direct:
+        wrong = sorted(n for n in used if (n in BACK_NAMES and fam == "front" and m != "last") or (n in FRONT_NAMES and fam == "back"))
+        flips = sorted(n for n in used if n in FLIP_NAMES)
+        if flips and not wrong:
+            R.inconc(b.ident, "%s reverses the cursor (%s): direction not decided" % (what, ", ".join(flips)))
+            return
+        R.inst(b.ident, "%s only steps the cursor through its own judged methods (%s), all in the %s direction" % (what, ", ".join(sorted(set(used))) or "none", fam), not wrong)
+        for n in wrong:
+            R.fail(b.ident, "override:%s:steps-with:%s" % (m, n), "%s: the %s-family method %s consumes the cursor with %s, i.e. from the other end: its items come in the wrong order" % (b.ident, fam, m, n), b.where())
+        return
+    # direct access to the fields
+    rows = typ in ("Rows", "RowsMut")
+    found = []
+    for bb in bodies:
+        dx = Dfx(bb)
+        for bi, t, fn in bb.calls():
+            if not fn:
+                continue
+            n = fn["name"]
+            if n in ALIGNED_FROM_END | DROPS_SHORT_TAIL | CHUNKERS | {"step_by"}:
+                arg = show(strip(dx.expr(t["args"][1]))) if len(t["args"]) > 1 else "?"
+                found.append((n, arg, bb.where(t["span"])))
+    bad = False
+    # the stride handed to chunks() / step_by(), as a polynomial over the cursor's own fields
+    names_ = [x["name"] for a in f.adts if a["id"].split("::")[-1] == typ for x in a["fields"]]
+    atom = {"cols": C, "skip_cols": K, "skip": K}
+
+    def poly_of(e):
+        e = strip(e)
+        if e[0] == "field" and strip(e[1])[0] in ("param", "var") and strip(e[1])[1] in A and e[2] < len(names_) and names_[e[2]] in atom:
+            return atom[names_[e[2]]]
+        if e[0] == "const":
+            mm = re.match(r"^(?:const )?(\d+)_usize$", e[1])
+            return Poly.const(int(mm.group(1))) if mm else None
+        if e[0] == "bin" and e[1] in ("Add", "AddWithOverflow", "AddUnchecked", "Mul", "MulWithOverflow", "Sub", "SubWithOverflow"):
+            l, r = poly_of(e[2]), poly_of(e[3])
+            if l is None or r is None:
+                return None
+            return l + r if e[1].startswith("Add") else (l * r if e[1].startswith("Mul") else l - r)
+        return None
+    if b.blocks:
+        dx0 = Dfx(b)
+        for bi, t, fn in b.calls():
+            if fn and fn["name"] in CHUNKERS | {"step_by"} and len(t["args"]) > 1:
+                pv = poly_of(dx0.expr(t["args"][1]))
+                want = (C + K) if rows else (ONE + K)
+                if pv is not None and pv != want:
+                    bad = True
+                    R.fail(b.ident, "override:%s:%s(%r)" % (m, fn["name"], pv), "%s: %s(%r) walks the cursor's slice with a step that is not the distance between consecutive items (%r)" % (b.ident, fn["name"], pv, want), b.where(t["span"]))
+    # which end of each piece is taken as the row: `[..cols]` (RangeTo: the leading cells) or `[len - cols..]` (RangeFrom)
+    takes = set()
+    for bb in bodies:
+        for bi, t, fn in bb.calls():
+            if fn and fn["name"] in ("index", "index_mut", "get_unchecked", "get_unchecked_mut", "get", "get_mut"):
+                txt = " ".join(fn.get("args") or [])
+                if "RangeTo<" in txt and "RangeToInclusive" not in txt:
+                    takes.add("lead")
+                elif "RangeFrom<" in txt:
+                    takes.add("trail")
+                elif "Range<" in txt:
+                    takes.add("other")
+            elif fn and fn["name"] in ("split_at", "split_at_mut", "split_first", "split_last", "first", "last", "first_chunk", "last_chunk"):
+                takes.add("other")
+    for n, arg, where in found:
+        if n in ALIGNED_FROM_END:
+            # pieces aligned at the END of the slice are [gap][row] (the first row alone has no gap before it): the row is the
+            # TRAILING `cols` cells of each piece
+            if takes == {"lead"} and rows:
+                bad = True
+                R.fail(b.ident, "override:%s:%s" % (m, n), "%s: %s() cuts the cursor's slice into pieces aligned at its END, so each piece is the gap followed by the row; taking the leading `cols` cells of a piece yields the gap cells (cells outside the view) instead of the row whenever the view is narrower than its parent" % (b.ident, n), where)
+        elif n in CHUNKERS and rows and takes == {"trail"}:
+            bad = True
+            R.fail(b.ident, "override:%s:%s" % (m, n), "%s: %s() cuts the cursor's slice into pieces aligned at its START, so each piece is the row followed by the gap; taking the trailing `cols` cells of a piece yields gap cells instead of the row whenever the view is narrower than its parent" % (b.ident, n), where)
+        elif n in DROPS_SHORT_TAIL:
+            bad = True
+            R.fail(b.ident, "override:%s:%s" % (m, n), "%s: %s() drops a final piece shorter than the chunk size, and the last row of a strided cursor carries no gap after it: the last row would be lost" % (b.ident, n), where)
+    if bad:
+        R.inst(b.ident, what + " walks the cursor's slice with a recognised chunking idiom", False)
+        return
+    R.inconc(b.ident, "%s reads the cursor's fields directly (%s): no schema for this override (undecided)" % (what, ", ".join("%s(%s)" % (n, a) for n, a, _ in found) or "no recognised idiom"))
 
 
 ANCHORED = ("next", "next_back", "nth", "nth_back", "last", "count", "size_hint")
@@ -907,6 +1091,22 @@ def r_cursor(f):
                 except (KeyError, IndexError, TypeError, AttributeError) as e:
                     ninc += 1
                     R.inconc(b.ident, "engine error %s: %r" % (type(e).__name__, e))
+            elif m == "len" and b.trait_head == "ExactSizeIterator":
+                nfun += 1
+                try:
+                    bad, npaths = size_hint_semantic(b, desc, W, names, kind="len")
+                    R.inst(b.ident, "len equals the number of remaining items m on all %d paths, for L = 0 and L = (m-1)*(W+K)+W with K = 0 and K > 0 (cursor invariant)" % npaths, not bad)
+                    for case, conds, got, exp in bad:
+                        R.fail(b.ident, "len[%s]:%s" % (case, got), "%s: with %s the remaining-item count is %s but len returns %s" % (b.ident, case, exp, got), b.where())
+                except Inconclusive as e:
+                    R.inconc(b.ident, "engine inconclusive: %s" % e)
+                except (KeyError, IndexError, TypeError, AttributeError) as e:
+                    R.inconc(b.ident, "engine error %s: %r" % (type(e).__name__, e))
+            elif m not in ANCHORED:
+                try:
+                    override_clause(f, b, typ, R)
+                except (KeyError, IndexError, TypeError, AttributeError) as e:
+                    R.inconc(b.ident, "override of %s: engine error %s: %r" % (m, type(e).__name__, e))
         for req in REQUIRED_FNS:
             if req not in have:
                 raise AnchorMissing("%s::%s (required method of the cursor's iterator impl)" % (typ, req))
